@@ -101,7 +101,11 @@ func puritySession(g *gen.G, idx int) Sess {
 					if g.P(0.4) {
 						// the same through OutputToWriter
 						var buf bytes.Buffer
-						o = real.Guard(func() error { return s.P.OutputToWriter(&buf, format) })
+						wf := format
+						if format == "json-pretty" && g.P(0.5) {
+							wf = "" // OutputToWriter's default format is json-pretty: same bytes
+						}
+						o = real.Guard(func() error { return s.P.OutputToWriter(&buf, wf) })
 						b = buf.Bytes()
 					} else {
 						o, b = s.Output(format)
